@@ -4559,6 +4559,10 @@ func (t *Terminal) Loop() error {
 										select {
 										case <-timer.C:
 											util.KillCommand(cmd)
+										case <-t.killChan:
+											// Another request while waiting (e.g. fzf is
+											// exiting): no more grace
+											util.KillCommand(cmd)
 										case <-finishChan:
 										}
 										timer.Stop()
